@@ -9,7 +9,7 @@ from ..core import hx, unhx
 class C06(Base):
     ID = "C06"
     AREA = "fmt"
-    LEMMA_FILES = ["FluentProofs/Resolver.lean", "FluentProofs/ResolverTotal.lean", "FluentProofs/ResolverBound.lean", "FluentProofs/ResolverFuel.lean"]
+    LEMMA_FILES = ["FluentProofs/Resolver.lean", "FluentProofs/ResolverTotal.lean", "FluentProofs/ResolverBound.lean", "FluentProofs/ResolverFuel.lean", "FluentProofs/ConstTieResolver.lean"]
     RULE = ("GR random bundles (<=6 messages, <=4 terms over a colliding id alphabet: cycles, self-reference, missing "
             "references at value/selector/argument position, value-less messages, selects on variables/literals/functions/"
             "term attributes, nested term calls) x argument sets x configurations (isolation, transform, formatter, both "
